@@ -69,7 +69,9 @@ CLAIMS = {
     "C10": ("proof", "Partial (value level). Contracts on the real Value::try_add and GroupedValue::{add,merge,..}: text never takes "
             "part in a sum and is kept verbatim in insertion order; numbers and ranges are folded end-wise into the single numeric "
             "slot (sum as an uninterpreted f64 relation over the right operands); the `expect` in add cannot fire; the "
-            "representation invariant (at most one numeric value, first) is preserved. Bounded (Kani): all_quantities lists every "
+            "representation invariant (at most one numeric value, first) is preserved; Quantity::compatible_unit: two quantities are "
+            "added in the unit of the FIRST one, never across physical quantities, never one with and one without unit (the converter "
+            "lookup is an assumed pure function). Bounded (Kani): all_quantities lists every "
             "present quantity of a definition and its two references exactly once. GroupedQuantity, ingredient lists and "
             "aisle categorisation are not decided.", VERUS + " + " + KANI),
     "C11": ("proof", "Partial. The span computation of aisle::parse (calc_span closure, lifted mechanically) never asserts and returns "
